@@ -64,13 +64,17 @@ def rule_is_negative_table(ctx: Ctx, rule: str) -> None:
 
     def am(node: ast.AST, fr: Any) -> Any:
         if isinstance(node, ast.Compare) and len(node.ops) == 1 and isinstance(node.ops[0], (ast.In, ast.NotIn)):
-            left, right = norm_src(node.left), norm_src(node.comparators[0])
+            left = norm_src(node.left)
             neg_ = isinstance(node.ops[0], ast.NotIn)
-            name = {('pattern[0:1]', 'NEGATIVE_SYM'): 'first=!', ('pattern[:1]', 'NEGATIVE_SYM'): 'first=!',
-                    ('pattern[0:1]', 'MINUS_NEGATIVE_SYM'): 'first=-', ('pattern[:1]', 'MINUS_NEGATIVE_SYM'): 'first=-',
-                    ('pattern[1:2]', 'ROUND_BRACKET'): 'second=('}.get((left, right))
-            if name:
-                return ('!' if neg_ else '') + name
+            pos = {'pattern[0:1]': 'first', 'pattern[:1]': 'first', 'pattern[1:2]': 'second'}.get(left)
+            if pos is None:
+                return None
+            val = fr.eval(node.comparators[0])  # resolves names, conditional expressions, locals
+            sym = {neg: '!', minus: '-', rb: '('}.get(val) if isinstance(val, frozenset) else None
+            if sym is None:
+                return None
+            if (pos, sym) in (('first', '!'), ('first', '-'), ('second', '(')):
+                return ('!' if neg_ else '') + f'{pos}={sym}'
         return None
     ev.atom_map = am
     paths = ev.tabulate(fi, {'pattern': Opaque('pattern'), 'flags': BV('flags')})
